@@ -1,31 +1,31 @@
-SPECIFICATION Spec
+SPECIFICATION FairLibSpec
 CONSTANTS
-  Procs = {1, 2}
-  ClientOf <- C12
-  ModeOf <- MWT
+  Procs = {1}
+  ClientOf <- C1
+  ModeOf <- MW
   K = 3
   Maj = 2
   MaxCalls = 1
   MaxIoErr = 1
   MaxAcqErr = 0
-  MaxExtDel = 0
-  MaxExpire = 0
+  MaxExtDel = 1
+  MaxExpire = 1
   MaxDisc = 0
   MaxSrcCancel = 0
   NoLoop = TRUE
   AsyncPush = FALSE
-  FixCancelFirst = FALSE
+  FixCancelFirst = TRUE
   FixRetryTimer = TRUE
   FixLocalHandoff = TRUE
   BugExtendNoToken = FALSE
   BugThreshold = FALSE
   BugIgnoreInval = FALSE
-  BugLostByCause = FALSE
+  BugLostByCause = TRUE
   BugNilNoGate = FALSE
   DiscParkedOnly = FALSE
   Record = FALSE
   GenLen = 0
-INVARIANTS DoneBeforeRelease
 
+PROPERTIES Prompt
 
 CHECK_DEADLOCK FALSE
